@@ -623,6 +623,28 @@ func byteTerms(vs []Value) ([]*Term, bool) {
 // fold back into the term (Concat), so comparing e.g. a 20-byte address atom with 20 extracted hash bytes becomes a
 // single equation that the path condition often contains verbatim.
 func wideEq(a, b []*Term) *Term {
+	// hex renderings: compare the rendered nibbles as one block (adjacent extracts fold back into the source term)
+	if len(a) >= 2 {
+		allHex := true
+		na, nb := make([]*Term, len(a)), make([]*Term, len(b))
+		for i := range a {
+			oa, ok1 := hexOrigin[a[i]]
+			ob, ok2 := hexOrigin[b[i]]
+			if !ok1 || !ok2 {
+				allHex = false
+				break
+			}
+			na[i], nb[i] = oa, ob
+		}
+		if allHex {
+			r := True
+			for i := 0; i < len(na); i += 128 {
+				j := min(i+128, len(na))
+				r = And(r, Eq(termOfBytes(na[i:j]), termOfBytes(nb[i:j])))
+			}
+			return r
+		}
+	}
 	// long sequences: compare in 64-byte chunks to keep terms shallow
 	if len(a) > 64 {
 		r := True
